@@ -5,7 +5,7 @@
      that are never read while they could block; the model executes the same script
      ([crun]) and every observation (returned handles, every Recv result, every Send /
      Close result) must be equal; [nfwd] = number of goroutines the implementation
-     started (the model: number of forwarders).
+     started (the model: number of forwarders); [rcl] = closeRecv count of every base stream.
    * [CaseConc build bobs writers leaves hang]: a tree built by [build] over pipes that are
      then driven by one goroutine per end.  The model executes the construction and the
      observed per-reader histories are checked against the trace predicates of
@@ -194,20 +194,26 @@ Definition siblings_ok (G : state) (ls : list lobs) : bool :=
 
 Definition live_count (G : state) : nat := List.length (filter h_live (st_handles G)).
 
+(* [rcl] (seq): for every base stream in creation order, how often the implementation closed its
+   receive side (accounting hook of package schema) — the model's [s_rclosed].  [nstreams]
+   (conc): number of base streams the implementation created (pipes, forwarder streams, the
+   stream a merge builds from array arguments) — the model's store after the construction. *)
 Inductive ccase : Type :=
-| CaseSeq (ops : list cop) (observed : list obs) (nfwd : nat)
-| CaseConc (build : list cop) (bobs : list obs) (ws : list wobs) (ls : list lobs) (hang : bool).
+| CaseSeq (ops : list cop) (observed : list obs) (nfwd : nat) (rcl : list nat)
+| CaseConc (build : list cop) (bobs : list obs) (ws : list wobs) (ls : list lobs) (hang : bool) (nstreams : nat).
 
 Definition bad (c : ccase) : bool :=
   match c with
-  | CaseSeq ops observed nfwd =>
+  | CaseSeq ops observed nfwd rcl =>
       let '(bs, G) := crun init_state ops in
-      negb (obslist_eqb bs observed && Nat.eqb (List.length (st_fwds G)) nfwd)
-  | CaseConc build bobs ws ls hang =>
+      negb (obslist_eqb bs observed && Nat.eqb (List.length (st_fwds G)) nfwd
+            && natlist_eqb (map s_rclosed (streams (st_store G))) rcl)
+  | CaseConc build bobs ws ls hang nstreams =>
       let '(bs, G) := crun init_state build in
       let tbl := wtable G ws in
       negb (obslist_eqb bs bobs
             && negb hang
+            && Nat.eqb (List.length (streams (st_store G))) nstreams
             && Nat.eqb (live_count G) (List.length ls)
             && nodupb (map (fun l => match l with L h _ _ => h end) ls)
             && forallb (leaf_ok G tbl) ls
